@@ -492,6 +492,9 @@ def build(prog):
             cpu = (b0 ** 2 <= 3)
             part.add_constraint(cpu)                      # the user's own constraint on the partition
             b.held["c_part_user"] = cpu
+            part_b = pep.declare_block_partition(d=2)     # a second, independent partition of the same model
+            b.held["blk_b"] = part_b.get_block(b.held["d"], 1)
+            b.part_b = part_b
     if prog.get("lmimetric") and "t0" in b.held:
         m1 = b.held["t0"] + 0          # the metric is the off-diagonal variable of the first LMI (t^2 <= |x - x0|^2 + 1)
     pep.set_performance_metric(m1)
